@@ -75,15 +75,7 @@ def gen(seed, tier, n):
             segmode = 2
         chunks = None
         if segmode == 3:
-            # cut at interesting places: around the end of the interim and final header blocks
-            cuts = sorted(set(max(1, x) for x in [c['interim_len'] + rnd.randint(-3, 3),
-                                                  c['interim_len'] + c['final_len'] + rnd.randint(-3, 3),
-                                                  rnd.randint(1, max(1, len(c['resp'])))]))
-            chunks, prev = [], 0
-            for x in cuts:
-                if x > prev:
-                    chunks.append(x - prev)
-                    prev = x
+            chunks = httpgen.explicit_chunks(rnd, c)
         connmode = rnd.choice([0, 0, 1])
         outmode = rnd.choice([0, 0, 1])
         line = httpgen.case_line(c, segmode, rnd.getrandbits(32), outmode=outmode, connmode=connmode,
